@@ -39,7 +39,7 @@ ROUNDED = [1.1, 0.75, 1.5, 0.9, 1.25]
 
 
 def generate(rng, tier):
-    n = 14 if tier == "quick" else 300
+    n = 30 if tier == "quick" else 300
     cases = []
     for game in M.GAMES:
         for _ in range(n):
